@@ -307,6 +307,11 @@ def value_eq(a, b):
             return z3.BoolVal(False)
         return z3.And(*[value_eq(x, y) for x, y in zip(a.f, b.f)]) if a.f else z3.BoolVal(True)
     if isinstance(a, Enum):
+        if a.ty == 'Option' and b.ty == 'Option' and (a.variant is None or b.variant is None):
+            da, db = opt_discr(a), opt_discr(b)
+            if a.f and b.f:
+                return z3.And(da == db, z3.Implies(da == z3.BitVecVal(1, 64), value_eq(a.f[0], b.f[0])))
+            return z3.And(da == db, da == z3.BitVecVal(0, 64)) if (a.f or b.f) else da == db
         if a.variant is None or b.variant is None:
             da, db = enum_discr_bv(a), enum_discr_bv(b)
             return da == db
@@ -519,15 +524,15 @@ def c06(ctx, l, sig):
             alt = A.f(me.f[0], 'alt')
             c12 = fbits(F, 41, 52)
             is_some, val = O.ac12_altitude(c12)
-            if alt.variant == 'Some':
-                got = to_bv(alt.f[0])
-                claim = z3.And(is_some, got == val)
-            else:
-                claim = z3.Or(z3.Not(is_some), z3.And(is_some, val == 0))
+            dsome = to_z3bool(mk_bool(opt_discr(alt) == z3.BitVecVal(1, 64)))
+            got = to_bv(alt.f[0]) if alt.f else z3.BitVecVal(0, 16)
+            claim = z3.Or(z3.And(is_some, dsome, got == val),
+                          z3.And(z3.Not(is_some), z3.Not(dsome)),
+                          z3.And(is_some, val == 0, z3.Not(dsome)))
             def extra12(m):
                 code = m.eval(c12, model_completion=True).as_long()
                 return {'code': code, 'detail': '12-bit code %#05x: decoded %s, oracle some=%s value=%s' % (
-                    code, alt.variant, m.eval(is_some, model_completion=True), m.eval(val, model_completion=True))}
+                    code, m.eval(dsome, model_completion=True), m.eval(is_some, model_completion=True), m.eval(val, model_completion=True))}
             obligation(ctx, 'C06', '%s:AC12' % sig, claim, '12-bit altitude code decodes to a value other than the Annex 10 altitude', extra12)
 
 
@@ -923,3 +928,71 @@ def find_app(t, name):
 
 
 HANDLERS.update({'C10': c10, 'C07': c07})
+
+
+# ======================================================================================= C01 (totality of decode + frame operations)
+def c01(ctx, l, sig):
+    prog, L, bs, P, A = ctx['prog'], ctx['L'], ctx['bs'], ctx['P'], ctx['A']
+    res = ctx['res']
+    P.obligations += 1
+    if l.kind == 'panic':
+        violation(ctx, 'C01', 'decode-panics:%s' % (l.where or ''), P.feasible(), 'Frame::from_bytes panics: %s' % l.msg)
+        return
+    if l.kind == 'error':
+        res['inconclusive'] = 'exploration error leaf: %s at %s' % (l.msg, l.where)
+        return
+    P.discharged += 1
+    alloc = l.env.get('alloc', 0)
+    res['max_alloc'] = max(res.get('max_alloc', 0), alloc)
+    P.obligations += 1
+    if alloc > 4 * L + 64:
+        violation(ctx, 'C01', 'decode-allocates:%s' % sig, P.feasible(), 'decoding appended %d bytes to heap containers for a %d-byte input' % (alloc, L))
+    else:
+        P.discharged += 1
+    fr = ok_frame(l)
+    if fr is None or not ctx['job'].get('ops'):
+        return
+    # every operation offered on the decoded frame: text rendering ...
+    ex2 = Executor(prog, _b.B)
+    ls = ex2.run_builtin_call('<Frame as ToString>::to_string', [Ref(('V', fr))], pc=list(l.pc))
+    res['display_paths'] = res.get('display_paths', 0) + len(ls)
+    note_calls(res, ex2)
+    for c in ls:
+        P.obligations += 1
+        if c.kind == 'panic':
+            m = ex2.model(c.pc)
+            violation(ctx, 'C01', 'display-panics:%s' % sig, m, 'rendering panics: %s (%s)' % (c.msg, c.where))
+        elif c.kind == 'error':
+            res['inconclusive'] = 'display exploration error: %s at %s' % (c.msg, c.where)
+        else:
+            P.discharged += 1
+    # ... velocity computation
+    df = A.f(fr, 'df')
+    m_ = me_of(ctx, df)
+    if m_ is not None and m_.variant == 'AirborneVelocity':
+        name = prog.find_free_fn('AirborneVelocity::calculate')
+        ex3 = Executor(prog, _b.B)
+        ls = ex3.run(prog.items[name], [Ref(('V', m_.f[0]))], pc=list(l.pc))
+        note_calls(res, ex3)
+        for c in ls:
+            P.obligations += 1
+            if c.kind == 'panic':
+                violation(ctx, 'C01', 'calculate-panics:%s' % sig, ex3.model(c.pc), 'calculate() panics: %s (%s)' % (c.msg, c.where))
+            elif c.kind == 'error':
+                res['inconclusive'] = 'calculate exploration error: %s at %s' % (c.msg, c.where)
+            else:
+                P.discharged += 1
+        if ex3.stats['unknown']:
+            res['inconclusive'] = 'solver unknown while exploring calculate()'
+    if ex2.stats['unknown']:
+        res['inconclusive'] = 'solver unknown while exploring Display'
+
+
+def note_calls(res, ex):
+    for k, v in ex.stats['fn_calls'].items():
+        res['fn_calls'][k] = res['fn_calls'].get(k, 0) + v
+    for k, v in ex.stats['builtin_calls'].items():
+        res['builtin_calls'][k] = res['builtin_calls'].get(k, 0) + v
+
+
+HANDLERS['C01'] = c01
